@@ -284,6 +284,7 @@ class Evaluator:
         self.overrides = overrides or {}  # "module::name" -> value (rule supplied)
         self.opaque_calls = set(opaque_calls or ())  # fq names of project functions kept opaque
         self.on_call = on_call
+        self.call_listener = None  # callable(node, callee value) for every folded Call node
         self.trace = []
 
     # ---- module globals ----------------------------------------------
@@ -1003,6 +1004,8 @@ class Evaluator:
                 kwargs.update(self.eval(k.value, env))
             else:
                 kwargs[k.arg] = self.eval(k.value, env)
+        if self.call_listener is not None:
+            self.call_listener(n, f)
         return self.call(f, args, kwargs, n)
 
     def e_Subscript(self, n, env):
@@ -1322,7 +1325,7 @@ def _b_minmax(pick):
         vals = list(args[0]) if len(args) == 1 else list(args)
         vals = [num_norm(v) for v in vals]
         if any(isinstance(v, Rat) for v in vals):
-            raise Undecided("min/max over symbolic values")
+            return A.opaque(pick.__name__, tuple(vals))
         vals2 = [float("inf") if v is INF else v for v in vals]
         r = pick(vals2)
         return INF if r == float("inf") else r
@@ -1333,7 +1336,7 @@ def _b_minmax(pick):
 def _b_abs(v):
     v = num_norm(v)
     if isinstance(v, Rat):
-        raise Undecided("abs of symbolic value")
+        return A.opaque("abs", (v,), positive=True)
     return abs(v)
 
 
@@ -1610,6 +1613,13 @@ _EXT_CALLS = {
 PROJECT_SUMMARIES = {
     # yadism's own dilogarithm (CERNlib DDILOG re-implementation): trusted to be Li2
     "yadism.coefficient_functions.special::li2": lambda ev, x: num_norm(A.fn_li2(_r(num_norm(x)))),
+    # Nielsen generalised polylogarithm S_{n,p}(x): kept as an opaque atom (its real part is what
+    # every caller projects out with `.real`)
+    "yadism.coefficient_functions.special.nielsen::nielsen": lambda ev, n, p, x: A.opaque(
+        f"S{num_norm(n)}{num_norm(p)}", (num_norm(x),)
+    ),
+    # N3LO grid interpolator: an opaque callable
+    "yadism.coefficient_functions.heavy.n3lo::interpolator": lambda ev, *a, **k: OpaqueObj("n3lo_interpolator"),
 }
 
 _DUMMY = Evaluator.__new__(Evaluator)
